@@ -162,7 +162,9 @@ def run(ctx, impl_only=False):
     close_floats(ctx)
     if not impl_only:
         FAM.compare_with_model(ctx, reqs)
-    wit = {'F5e': lambda: bool(DeepDiff({'NONE'}, {None})),
+    import datetime as _dt2
+    wit = {'F65': lambda: bool(DeepDiff({_dt2.time(12, 0, tzinfo=_dt2.timezone.utc)}, {_dt2.time(12, 0, tzinfo=_dt2.timezone(_dt2.timedelta(hours=5)))})),
+           'F5e': lambda: bool(DeepDiff({'NONE'}, {None})),
            'F39': lambda: bool(DeepDiff({(1, 1, 2)}, {(1, 2, 2)})) and bool(DeepDiff({(1, 2)}, {(2, 1)})) and bool(DeepDiff([frozenset({(1, 2)})], [frozenset({(2, 1)})]))}
     for fid, fn in wit.items():
         ctx.evaluations += 1
@@ -178,11 +180,19 @@ def close_floats(ctx):
     wherever they sit (leaf, item, dictionary value, set member), t1 != t2, so the plain diff is not empty"""
     import math
     from deepdiff import DeepDiff
-    pairs = [(0.1, math.nextafter(0.1, 1)), (1.0, math.nextafter(1.0, 2)), (1.0, math.nextafter(1.0, 0)), (1e-20, 2e-20), (0.0, 5e-324), (5e-324, 1e-323), (1e-300, -1e-300),
+    import datetime as _dtm
+    tz = lambda h: _dtm.timezone(_dtm.timedelta(hours=h))
+    pairs = [(b'caf\xe9', b'caf\xc3\xa9'), (b'\x80', b'\xc2\x80'), (b'a\xff', b'a\xc3\xbf'), (b'l1\n\xe9', b'l1\n\xc3\xa9'),
+             (_dtm.time(12, 0, tzinfo=tz(0)), _dtm.time(12, 0, tzinfo=tz(5))), (_dtm.time(12, 0, tzinfo=tz(0)), _dtm.time(12, 0)), (_dtm.time(1, 2, 3, tzinfo=tz(-8)), _dtm.time(1, 2, 3, tzinfo=tz(9))),
+             (0.1, math.nextafter(0.1, 1)), (1.0, math.nextafter(1.0, 2)), (1.0, math.nextafter(1.0, 0)), (1e-20, 2e-20), (0.0, 5e-324), (5e-324, 1e-323), (1e-300, -1e-300),
              (1e16, 1e16 + 2), (-2.5, math.nextafter(-2.5, 0)), (1e-17, 0.0), (3.0000000000000004, 3.0), (123456.789, math.nextafter(123456.789, 0))]
     wraps = [lambda v: v, lambda v: [v], lambda v: {'k': v}, lambda v: (1, v), lambda v: {v}, lambda v: [{'a': [v, 'x']}, 0], lambda v: {'k': {'j': v}, 'z': 1.5}]
     for a, b in pairs:
         for w in wraps:
+            if isinstance(a, bytes) and w is wraps[4]:
+                continue            # undecodable bytes as set members: DeepHash refuses them by design (encodings=...)
+            if isinstance(a, _dtm.time) and w is wraps[4]:
+                continue            # times of one wall clock and different offsets as set members: finding F65 (the digest of a time drops its offset)
             for cfg in ({}, {'view': 'tree'}, {'verbose_level': 2}, {'zip_ordered_iterables': True}, {'threshold_to_diff_deeper': 0}):
                 ctx.evaluations += 1
                 x, y = w(a), w(b)
